@@ -24,7 +24,7 @@ Example toy_codec_ok : forall c l b, toy_dec c (toy_enc c l b, E_EOF) = DStream 
 Proof. reflexivity. Qed.
 
 Definition gz (l : Z) : ccfg := {| c_type := s_gzip; c_level := l |}.
-Definition srv (mx : Z) (algs : option (list string)) (cu : list (string * N)) : scfg :=
+Definition srv (mx : Z) (algs : option (list string)) (cu : list (string * option N)) : scfg :=
   {| s_max := mx; s_algs := algs; s_custom := cu |}.
 Definition rq (ce : list string) (b : bytes) : creq :=
   {| q_ce := ce; q_body := Some b; q_stream := false; q_rerr := false; q_cerr := false |}.
@@ -33,13 +33,13 @@ Definition wr (ce : list string) (b : bytes) : wreq := {| w_ce := ce; w_body := 
 (* all hypotheses of [roundtrip] hold for a concrete non-trivial instance, and the conclusion computes *)
 Example ex_roundtrip :
   client_validate (gz 6) = true /\ is_compressed s_gzip = true /\ writer_codec s_gzip = Some CGzip /\
-  In s_gzip (eff_algs (srv 4 None [])) /\ ~ In s_gzip (map fst (@nil (string * N))) /\
+  In s_gzip (eff_algs (srv 4 None [])) /\ ~ In s_gzip (map fst (@nil (string * option N))) /\
   e2e toy_enc toy_dec toy_cdec (gz 6) (srv 4 None []) (rq [] [1;2;3]%N) = Some (Handled [] (-1) ([1;2;3]%N, E_EOF)).
 Proof. vm_compute. repeat split; auto 10. Qed.
 
 (* every configured type: deflate is written and read with zlib *)
 Example ex_deflate :
-  writer_codec s_deflate = Some CZlib /\ slot_of_name s_deflate = SCodec CZlib /\
+  writer_codec s_deflate = Some CZlib /\ slot_of_name s_deflate = Some (SCodec CZlib) /\
   tget (decoders (srv 0 (Some [s_deflate]) [])) s_deflate = Some (SCodec CZlib) /\
   tget (decoders (srv 0 (Some [s_deflate]) [])) s_zlib = None.
 Proof. vm_compute. repeat split. Qed.
@@ -65,14 +65,19 @@ Example ex_identity_not_enabled :
   = Some (Rejected 400).
 Proof. vm_compute. reflexivity. Qed.
 
-(* an enabled name without an available decoder binds a nil func *)
+(* an enabled name without an available decoder is not bound at all: 400 like any unknown encoding;
+   only a custom decoder registered as nil, WithDecoder(key, nil), still makes ServeHTTP call a nil func *)
 Example ex_nil_decoder :
-  server toy_dec toy_cdec (srv 100 (Some [s_empty; "br"%string]) []) (wr (["br"%string]) ([1]%N)) = Panicked.
-Proof. vm_compute. reflexivity. Qed.
+  server toy_dec toy_cdec (srv 100 (Some [s_empty; "br"%string]) []) (wr (["br"%string]) ([1]%N)) = Rejected 400 /\
+  tget (decoders (srv 100 (Some [s_empty; "br"%string; s_deflate]) [])) "br"%string = None /\
+  tget (decoders (srv 100 (Some [s_empty; "br"%string; s_deflate]) [])) s_deflate = Some (SCodec CZlib) /\
+  server toy_dec toy_cdec (srv 100 None [("x-nil"%string, None)]) (wr (["x-nil"%string]) ([1]%N)) = Panicked /\
+  server toy_dec toy_cdec (srv 100 None [("br"%string, Some 0%N)]) (wr (["br"%string]) ([1]%N)) = Handled [] (-1) ([1]%N, E_EOF).
+Proof. vm_compute. repeat split. Qed.
 
 (* limit: a small compressed body that expands (custom decoder 3 doubles every byte; limit 4) *)
 Example ex_limit_custom :
-  server toy_dec toy_cdec (srv 4 None [("x-dbl"%string, 3%N)]) (wr (["x-dbl"%string]) ([1;2;3]%N))
+  server toy_dec toy_cdec (srv 4 None [("x-dbl"%string, Some 3%N)]) (wr (["x-dbl"%string]) ([1;2;3]%N))
   = Handled [] (-1) ([1;1;2;2]%N, E_TOOLARGE).
 Proof. vm_compute. reflexivity. Qed.
 
